@@ -15,15 +15,16 @@ import (
 // C04 — reliable broadcast totality in fault-free runs, for every interleaving.
 
 type C04Cfg struct {
-	Deploy   DeployCfg `json:"deploy"`
-	Strategy string    `json:"strategy"`
-	Serial   bool      `json:"serial"`
-	Op       string    `json:"op"` // keygen | sign | both
-	N        int       `json:"n"`
-	T        int       `json:"t"`
-	Late     int       `json:"late"` // index into IDs of a node that starts late (-1: none)
-	Topic    string    `json:"topic"`
-	Signers  []uint16  `json:"signers,omitempty"` // explicit signer set (default: drawn)
+	Deploy        DeployCfg `json:"deploy"`
+	Strategy      string    `json:"strategy"`
+	Serial        bool      `json:"serial"`
+	Op            string    `json:"op"` // keygen | sign | both
+	N             int       `json:"n"`
+	T             int       `json:"t"`
+	Late          int       `json:"late"` // index into IDs of a node that starts late (-1: none)
+	Topic         string    `json:"topic"`
+	Signers       []uint16  `json:"signers,omitempty"`       // explicit signer set (default: drawn)
+	CallTimeoutMs int       `json:"callTimeoutMs,omitempty"` // context deadline of every call (0: none)
 }
 
 func genC04(seed uint64, tier string) C04Cfg {
@@ -159,14 +160,27 @@ type SessOut struct {
 // Violations of "a fault-free session finishes" are appended to res under the
 // invariant prefix inv.
 func runSession(spec RunSpec, cfg C04Cfg, inv string, res *RunResult, setup func(d *Deployment)) (*SessOut, *netsim.ScriptSched) {
+	return runSessionX(spec, cfg, nil, inv, res, res, setup)
+}
+
+// runSessionWith lets only `invokers` call KeyGen (every node of cfg.Deploy.IDs
+// exists); session violations go to res, the trace configuration comes from top.
+func runSessionWith(spec RunSpec, cfg C04Cfg, invokers []uint16, inv string, res *RunResult, top *RunResult) (*SessOut, *netsim.ScriptSched) {
+	return runSessionX(spec, cfg, invokers, inv, res, top, nil)
+}
+
+func runSessionX(spec RunSpec, cfg C04Cfg, invokers []uint16, inv string, res *RunResult, top *RunResult, setup func(d *Deployment)) (*SessOut, *netsim.ScriptSched) {
 	w := netsim.NewWorld(spec.Seed)
 	w.Serial = cfg.Serial
-	trace(spec, res.Cfg, w)
+	trace(spec, top.Cfg, w)
 	d := NewDeployment(w, cfg.Deploy)
 	if setup != nil {
 		setup(d)
 	}
 	d.Build()
+	if invokers == nil {
+		invokers = cfg.Deploy.IDs
+	}
 	out := &SessOut{W: w, D: d, Stored: map[uint16][]byte{}}
 	sched, ss := scheduler(spec, cfg.Strategy)
 	lim := netsim.RunLimits{MaxSteps: 200000, Horizon: 30 * time.Minute, FairAfterSteps: 6000, FairAfter: 2 * time.Minute}
@@ -207,8 +221,8 @@ func runSession(spec RunSpec, cfg C04Cfg, inv string, res *RunResult, setup func
 	ok := true
 	if cfg.Op == "keygen" || cfg.Op == "both" {
 		st := &starter{}
-		for i, id := range cfg.Deploy.IDs {
-			st.add(fmt.Sprintf("start:kg:%d", id), id, weight(i), startKeyGen(d, id, cfg.N, cfg.T, 0))
+		for i, id := range invokers {
+			st.add(fmt.Sprintf("start:kg:%d", id), id, weight(i), startKeyGen(d, id, cfg.N, cfg.T, time.Duration(cfg.CallTimeoutMs)*time.Millisecond))
 		}
 		ok = phase("keygen", st)
 		for _, c := range st.calls() {
@@ -222,7 +236,7 @@ func runSession(spec RunSpec, cfg C04Cfg, inv string, res *RunResult, setup func
 		}
 		out.Signers = signers
 		var parties []uint16
-		for _, id := range cfg.Deploy.IDs {
+		for _, id := range invokers {
 			parties = append(parties, d.Cfg.PIDs[id])
 		}
 		st := &starter{}
@@ -232,7 +246,7 @@ func runSession(spec RunSpec, cfg C04Cfg, inv string, res *RunResult, setup func
 				sd = fabricatedStored(parties, cfg.T, d.Cfg.PIDs[id])
 			}
 			d.Parties[id].SetStoredData(sd)
-			st.add(fmt.Sprintf("start:sg:%d", id), id, weight(i), startSign(d, id, sha([]byte("digest")), cfg.Topic, 0))
+			st.add(fmt.Sprintf("start:sg:%d", id), id, weight(i), startSign(d, id, sha([]byte("digest")), cfg.Topic, time.Duration(cfg.CallTimeoutMs)*time.Millisecond))
 		}
 		ok = phase("sign", st)
 	}
